@@ -314,12 +314,10 @@ func runUnsat(c *Ctx) {
 		v := rm.Common().Args[1]
 		notVisited := false
 		for _, l := range core.Lits(core.Guards(rm.Block())) {
-			if l.Kind == "ok" && !l.Pol {
-				if lk, ok := l.Of.(*ssa.Lookup); ok {
-					if id, ok := lk.Index.(*ssa.Call); ok && core.CalleeName(id.Common()) == core.GVertexID && id.Common().Args[0] == v {
-						notVisited = true
-						visitedAlloc = lk.X
-					}
+			if lk, in, ok := core.MemberLit(l); ok && !in {
+				if id, ok := lk.Index.(*ssa.Call); ok && core.CalleeName(id.Common()) == core.GVertexID && id.Common().Args[0] == v {
+					notVisited = true
+					visitedAlloc = lk.X
 				}
 			}
 		}
@@ -357,7 +355,7 @@ func runUnsat(c *Ctx) {
 		if cb != nil {
 			c.R.Func(core.FuncName(cb))
 			core.Instrs(cb, func(in ssa.Instruction) {
-				if mu, ok := in.(*ssa.MapUpdate); ok {
+				if mu, ok := in.(*ssa.MapUpdate); ok && core.SetInsert(mu) {
 					if id, ok := mu.Key.(*ssa.Call); ok && core.CalleeName(id.Common()) == core.GVertexID && id.Common().Args[0] == ssa.Value(cb.Params[0]) {
 						if postDominatesEntry(cb, mu.Block()) {
 							cbOK = true
